@@ -116,6 +116,7 @@ def base : Pt := .aff 1 2
 
 instance : Add Pt := ⟨add⟩
 instance : Zero Pt := ⟨.inf⟩
+instance : Neg Pt := ⟨neg⟩
 instance : SMul (Zq r) Pt := ⟨fun k q => mul k.val q⟩
 
 /-- `pointG1.UnmarshalBinary` -/
